@@ -78,6 +78,12 @@ const LOOPBACK_V4: Ipv4Addr = Ipv4Addr::new(127, 0, 0, 1);
 
 const RESOLVE_WAIT_IN_MILLIS: u64 = 500;
 
+#[cfg(feature = "verif-hooks")]
+#[path = "verif_daemon.rs"]
+pub mod verif_daemon;
+#[cfg(feature = "verif-hooks")]
+use verif_daemon::fastrand;
+
 /// Response status code for the service `unregister` call.
 #[derive(Debug)]
 pub enum UnregisterStatus {
@@ -325,6 +331,46 @@ impl ServiceDaemon {
             })
             .map_err(|e| e_fmt!("thread builder failed to spawn: {}", e))?;
 
+        Ok(Self {
+            sender,
+            signal_addr,
+        })
+    }
+
+    /// Creates a daemon driven by a simulation controller (verification only).
+    ///
+    /// Same body as [`new_with_port`](Self::new_with_port); the daemon thread installs the
+    /// controller and an exit guard, then runs the unchanged `daemon_thread`.
+    #[cfg(feature = "verif-hooks")]
+    pub fn new_sim(ctl: std::sync::Arc<crate::verif::SimCtl>) -> Result<Self> {
+        let signal_addr = SocketAddrV4::new(LOOPBACK_V4, 0);
+        let signal_sock = UdpSocket::bind(signal_addr)
+            .map_err(|e| e_fmt!("failed to create signal_sock for daemon: {}", e))?;
+        let signal_addr = signal_sock
+            .local_addr()
+            .map_err(|e| e_fmt!("failed to get signal sock addr: {}", e))?;
+        signal_sock
+            .set_nonblocking(true)
+            .map_err(|e| e_fmt!("failed to set nonblocking for signal socket: {}", e))?;
+        let poller = Poll::new().map_err(|e| e_fmt!("failed to create mio Poll: {e}"))?;
+        let (sender, receiver) = bounded(100);
+        let mio_sock = MioUdpSocket::from_std(signal_sock);
+        let cmd_sender = sender.clone();
+        thread::Builder::new()
+            .name("mDNS_daemon_sim".to_string())
+            .spawn(move || {
+                crate::verif::install(Some(ctl.clone()));
+                let _guard = crate::verif::ExitGuard(ctl);
+                Self::daemon_thread(
+                    mio_sock,
+                    poller,
+                    receiver,
+                    MDNS_PORT,
+                    cmd_sender,
+                    signal_addr,
+                )
+            })
+            .map_err(|e| e_fmt!("thread builder failed to spawn: {}", e))?;
         Ok(Self {
             sender,
             signal_addr,
@@ -754,6 +800,8 @@ impl ServiceDaemon {
                 Command::Exit(resp_s) => {
                     // It is guaranteed that the receiver already dropped,
                     // i.e. the daemon command channel closed.
+                    #[cfg(feature = "verif-hooks")]
+                    crate::verif::point("exit:closed");
                     if let Err(e) = resp_s.send(DaemonStatus::Shutdown) {
                         debug!("exit: failed to send response of shutdown: {}", e);
                     }
@@ -833,6 +881,8 @@ fn _new_socket_bind(intf: &Interface, should_loop: bool) -> Result<MyUdpSocket> 
 /// Creates a new UDP socket to bind to `port` with REUSEPORT option.
 /// `non_block` indicates whether to set O_NONBLOCK for the socket.
 fn new_socket(addr: SocketAddr, non_block: bool) -> Result<PktInfoUdpSocket> {
+    #[cfg(feature = "verif-hooks")]
+    let addr = verif_daemon::sim_bind_addr(addr);
     let domain = match addr {
         SocketAddr::V4(_) => socket2::Domain::IPV4,
         SocketAddr::V6(_) => socket2::Domain::IPV6,
@@ -1103,6 +1153,10 @@ struct Zeroconf {
 
 /// Join the multicast group for the given interface.
 fn join_multicast_group(my_sock: &PktInfoUdpSocket, intf: &Interface) -> Result<()> {
+    #[cfg(feature = "verif-hooks")]
+    if crate::verif::current().is_some() {
+        return Ok(());
+    }
     let intf_ip = &intf.ip();
     match intf_ip {
         IpAddr::V4(ip) => {
@@ -1436,6 +1490,9 @@ impl Zeroconf {
                 Duration::from_millis(millis)
             });
 
+            #[cfg(feature = "verif-hooks")]
+            let timeout = self.verif_gate(timeout, next_ip_check);
+
             // Process incoming packets, command events and optional timeout.
             events.clear();
             match self.poller.poll(&mut events, timeout) {
@@ -1475,6 +1532,8 @@ impl Zeroconf {
                 if matches!(command, Command::Exit(_)) {
                     debug!("Exit command received, performing cleanup");
                     self.cleanup();
+                    #[cfg(feature = "verif-hooks")]
+                    crate::verif::point("exit:cleaned");
                     self.status = DaemonStatus::Shutdown;
                     return Some(command);
                 }
@@ -2473,6 +2532,9 @@ impl Zeroconf {
             return false;
         };
         let mut buf = vec![0u8; MAX_MSG_ABSOLUTE];
+
+        #[cfg(feature = "verif-hooks")]
+        let sock = verif_daemon::RecvShim::new(sock, event_key);
 
         // Read the next mDNS UDP datagram.
         //
@@ -4286,6 +4348,12 @@ fn my_ip_interfaces(with_loopback: bool) -> Vec<Interface> {
 }
 
 fn my_ip_interfaces_inner(with_loopback: bool, with_apple_p2p: bool) -> Vec<Interface> {
+    #[cfg(feature = "verif-hooks")]
+    mod if_addrs {
+        pub fn get_if_addrs() -> std::io::Result<Vec<::if_addrs::Interface>> {
+            super::verif_daemon::get_if_addrs()
+        }
+    }
     if_addrs::get_if_addrs()
         .unwrap_or_default()
         .into_iter()
@@ -4363,6 +4431,8 @@ fn send_dns_outgoing_impl(
         }
         "response"
     };
+    #[cfg(feature = "verif-hooks")]
+    let sock = &verif_daemon::SendShim::new(sock, if_name, Some(if_index), Some(if_addr.ip()));
     trace!(
         "send {}: {} questions {} answers {} authorities {} additional",
         qtype,
@@ -4438,6 +4508,8 @@ fn unicast_on_intf(packet: &[u8], if_name: &str, dest: SocketAddr, socket: &PktI
     }
 
     let sock_addr = dest.into();
+    #[cfg(feature = "verif-hooks")]
+    let socket = &verif_daemon::SendShim::new(socket, if_name, None, None);
     match socket.send_to(packet, &sock_addr) {
         Ok(sz) => trace!(
             "sent unicast {} bytes on interface {} to {}",
@@ -4479,6 +4551,9 @@ fn multicast_on_intf(
 
     // Sends out `packet` to `addr` on the socket.
     let sock_addr = addr.into();
+    #[cfg(feature = "verif-hooks")]
+    let socket =
+        &verif_daemon::SendShim::new(socket, if_name, Some(if_index), Some(if_addr.ip()));
     match socket.send_to(packet, &sock_addr) {
         Ok(sz) => trace!(
             "sent out {} bytes on interface {} (idx {}) addr {}",
